@@ -536,6 +536,7 @@ class Case:
         self.build_err = ""
         self.gen_err = ""
         self.mismatches = []     # (doc index or None, code)
+        self.decl_diff = None    # static tie: how the emitted declarations differ from the model
         self.wf = None           # WfP.wf_ty holds of every type the model generates for the case (None: not evaluated)
         self.batch_case = None
 
@@ -547,6 +548,8 @@ class Case:
 
     def replay_obj(self, di=None):
         o = {"kind": "kitchen", "cfg": self.cfg(), "files": dict({"s.json": json.dumps(self.schema)}, **self.extra_files), "argv": self.argv, "family": self.fam}
+        if self.decl_diff:
+            o["declarations_differ"] = self.decl_diff
         if di is not None:
             d = self.docs[di]
             o.update({"doc": json.dumps(d["doc"]), "class": d.get("cls"), "path": list(d.get("path", ())), "impl": d.get("obs"),
@@ -615,7 +618,8 @@ def run_cases(ctx, cases, name, rows_fn=None, chunk=40):
         text += "Definition MM := Eval vm_compute in all_mismatches T FT cases.\n"
         text += "Definition VV := Eval vm_compute in all_valid FT cases.\n"
         text += "Definition WF := Eval vm_compute in all_not_wf T cases.\n"
-        return gi, ctx.coq_lists("%s_%d" % (name, gi), text, ["MM", "VV", "WF"], timeout=2400)
+        text += "Definition DD := Eval vm_compute in all_decls T cases.\n"
+        return gi, ctx.coq_lists("%s_%d" % (name, gi), text, ["MM", "VV", "WF", "DD"], timeout=2400)
 
     with cf.ThreadPoolExecutor(max_workers=12) as ex:
         for gi, vals in ex.map(one, range(len(groups))):
@@ -632,6 +636,13 @@ def run_cases(ctx, cases, name, rows_fn=None, chunk=40):
                 c.wf = True
             for ci in parse_nlist(vals["WF"]):
                 grp[ci].wf = False
+            for ci, text in parse_assoc_str(vals["DD"]):
+                c = grp[ci]
+                if c.gen_ok and c.build_ok and not any(code in (3, 4, 5) for _, code in c.mismatches):
+                    diff = decl_diff(text, c.scan)
+                    if diff:
+                        c.mismatches.append((None, 6))
+                        c.decl_diff = diff
             for ci, lst in parse_assoc_bool(vals["VV"]):
                 for di, ok in lst:
                     grp[ci].docs[di]["valid"] = ok
@@ -664,6 +675,110 @@ def parse_assoc(s):
         inner = [(int(a), int(b)) for a, b in re.findall(r"\(\s*(\d+)\s*,\s*(\d+)\s*\)", m.group(2))]
         out.append((int(m.group(1)), inner))
     return out
+
+
+def parse_assoc_str(s):
+    """'[(0%N, [83%N; 124%N]); (1%N, [])]' -> [(0, 'S|'), (1, '')]"""
+    out = []
+    for m in re.finditer(r"\(\s*(\d+)%N\s*,\s*\[([^\]]*)\]\s*\)", s):
+        out.append((int(m.group(1)), "".join(chr(int(x)) for x in re.findall(r"(\d+)%N", m.group(2)))))
+    return out
+
+
+def _norm_ty(e):
+    e = re.sub(r"struct\s*\{.*\}", "struct", e, flags=re.S)
+    return re.sub(r"\s+", "", e)
+
+
+def scan_decls(scan):
+    """the go/parser projection of the emitted files in the canonical form of Model/Render.v: name -> line"""
+    out = {}
+    for sc in scan.values():
+        meths = set(m[0].lstrip("*") for m in sc.get("methods", []) if m[1] == "UnmarshalJSON")
+        for t in sc.get("types", []):
+            if t["kind"] == "alias":
+                continue
+            m = "1" if t["name"] in meths else "0"
+            if t["kind"] == "struct":
+                fl = ""
+                for f in t.get("fields", []):
+                    jm = re.search(r'json:"([^"]*)"', f.get("tag", ""))
+                    jn, omit = "", "0"
+                    if jm:
+                        parts = jm.group(1).split(",")
+                        jn, omit = parts[0], "1" if "omitempty" in parts[1:] else "0"
+                    fl += "%s:%s:%s:%s;" % (f["name"], _norm_ty(f["type"]), jn, omit)
+                out[t["name"]] = "S|%s|%s|%s" % (t["name"], m, fl)
+            else:
+                out[t["name"]] = "N|%s|%s|%s" % (t["name"], m, _norm_ty(t["expr"]))
+    return out
+
+
+def decl_diff(model_text, scan):
+    """None when every declaration of the model is emitted with the same fields / underlying type / method; else a description.
+    A field may name another declared type than the model does when that type is declared with the same body (the generator re-uses the
+    declaration made for a schema node it meets again through a shared pointer, e.g. an enum of an allOf member): the name table is outside
+    the model, the shape is not."""
+    impl = scan_decls(scan)
+    suffixed = any(re.search(r"_\d+$", n) for n in impl)
+    if suffixed:
+        return None          # type names were de-duplicated with suffixes (the name table across declarations is outside the model)
+    model = {}
+    for line in model_text.split("\n"):
+        if not line:
+            continue
+        kind, name, flag, rest = line.split("|", 3)
+        if kind == "E":
+            # a plain enum is a named type over its carrier, a wrapped one a struct around `Value interface{}`; both always have the method
+            line = ("N|%s|1|%s" % (name, rest)) if flag == "0" else ("S|%s|1|Value:interface{}::0;" % name)
+        model.setdefault(name, line)
+
+    def split_ty(t):
+        m = re.match(r"^((?:\[\]|\*|map\[string\])*)(.*)$", t)
+        return m.group(1), m.group(2)
+
+    def same_ty(tm, ti, depth):
+        tm, ti = _norm_ty(tm), _norm_ty(ti)
+        if tm == ti:
+            return True
+        pm, bm = split_ty(tm)
+        pi, bi = split_ty(ti)
+        if pm != pi or depth <= 0 or bm not in model or bi not in impl:
+            return False
+        return same_line(model[bm], impl[bi], depth - 1)
+
+    def same_line(lm, li, depth):
+        km, _, fm, rm = lm.split("|", 3)
+        ki, _, fi, ri = li.split("|", 3)
+        if km != ki or fm != fi:
+            return False
+        if km == "N":
+            return same_ty(rm, ri, depth)
+        am, ai = [x for x in rm.split(";") if x], [x for x in ri.split(";") if x]
+        if len(am) != len(ai):
+            return False
+        for x, y in zip(am, ai):
+            xm, xi = x.split(":"), y.split(":")
+            if len(xm) != 4 or len(xi) != 4:
+                if x != y:
+                    return False
+                continue
+            if xm[0] != xi[0] or xm[2] != xi[2] or xm[3] != xi[3] or not same_ty(xm[1], xi[1], depth):
+                return False
+        return True
+
+    for name, want in model.items():
+        got = impl.get(name)
+        if got is None:
+            if suffixed:
+                continue          # type names were de-duplicated with suffixes: the name table is outside the model
+            # a type the model declares under this name may have been declared under the name of the first schema node it was met at
+            if any(same_line(want.replace("|%s|" % name, "|%s|" % n, 1), l, 3) for n, l in impl.items()):
+                continue
+            return "the model declares %s, the emitted code has no such type" % name
+        if not same_line(want, got, 3):
+            return "declaration of %s: model %r, emitted %r" % (name, want, got)
+    return None
 
 
 def parse_assoc_bool(s):
